@@ -73,6 +73,7 @@ type session struct {
 	dir     string
 	streams map[string][]*iavl.ExportNode
 	exporters map[string]*iavl.Exporter
+	keepStreams bool
 }
 
 var workdir string
@@ -89,7 +90,9 @@ func (s *session) reset() {
 	}
 	s.rec = nil
 	s.cfg = config{db: "mem", cache: 0, fast: true, thr: 0, iv: -1}
-	s.streams = map[string][]*iavl.ExportNode{}
+	if !s.keepStreams || s.streams == nil {
+		s.streams = map[string][]*iavl.ExportNode{}
+	}
 	s.exporters = map[string]*iavl.Exporter{}
 }
 
@@ -527,6 +530,11 @@ func (s *session) exec(args []string) string {
 	t := s.tree
 	switch args[0] {
 	case "new":
+		s.keepStreams = false
+		s.reset()
+		return "ok"
+	case "fresh": // a new empty database; exported streams are kept
+		s.keepStreams = true
 		s.reset()
 		return "ok"
 	case "cfg":
@@ -721,6 +729,11 @@ func (s *session) exec(args []string) string {
 			delete(s.exporters, args[1])
 		}
 		return "ok"
+	case "ifempty": // ifempty <op...>: run the operation only when the working tree is empty
+		if !t.IsEmpty() {
+			return "skipped"
+		}
+		return s.exec(args[1:])
 	case "reads": // reads <read-op...>: number of storage reads of a working-tree read
 		before := s.rec.reads
 		r := s.exec(args[1:])
@@ -760,6 +773,10 @@ func (s *session) doImport(args []string) string {
 		dst = iavl.NewCompressImporter(imp)
 	}
 	for i, n := range nodes {
+		if n != nil {
+			c := *n
+			n = &c
+		}
 		if err := dst.Add(n); err != nil {
 			return fmt.Sprintf("err:add@%d", i)
 		}
